@@ -219,6 +219,11 @@ def deep_and_long(rng, tier):
         out.append('redirect "' + "a" * n + '";\n')
         out.append('require "reject"; reject text:\n' + ("x" * 70 + "\n") * (n // 70 + 1) + ".\n;\n")
         out.append("k" * n + ";\n")                             # unknown command with a very long name
+        # a very long token that is the *offending* one (its position and length are reported)
+        out.append('# c\nkeep;\nstop "' + "s" * n + '";\n')
+        out.append("discard " + digits + ";\n")
+        out.append("if true { keep :" + "g" * n + "; }\n")
+        out.append('stop text:\n' + ("y" * 60 + "\n") * (n // 60 + 1) + ".\n;\n")
         out.append("if header :" + "t" * n + ' "a" "b" { stop; }\n')  # unknown tag with a very long name
         out.append("# " + "c" * n + "\nkeep; /* " + "d" * n + " */ stop;\n")
         out.append("keep;\n" * min(n, 3000))
